@@ -7,4 +7,7 @@ CONSTANTS
   SharedCounter = TRUE
   PreferCtxErr = TRUE
   FlushOnCtxErr = TRUE
+  WaitErrChecksDone = TRUE
+  Outcomes = {"zero", "nonzero", "signal", "waitfail"}
+  PrintKinds = {"pr_direct", "pr_buffered", "pr_file", "pr_cmd"}
 CHECK_DEADLOCK FALSE
